@@ -26,13 +26,17 @@ VARIABLES files         \* sequence of [ev, src, how, own]
 Origin == [ev |-> [i \in 1..N |-> i], src |-> 0, how |-> "origin", own |-> FALSE]
 Init == files = <<Origin>>
 
-Hows == {"export", "child", "grandchild", "mapped"}
+\* "internal": the derived file carries the source's feature data itself, as
+\* rows of an internal basin that its events address through a mapping (the
+\* shared rows of the property); such a file is a leaf here
+Hows == {"export", "child", "grandchild", "mapped", "internal"}
 Increasing(s) == \A i \in 1..(Len(s) - 1) : s[i] < s[i + 1]
 
 \* a new file derived from file `src` by selection `sel`;
 \* own: it also stores one basin feature itself (with its own values)
 Derive(src, how, sel, own) ==
     /\ Len(files) < MaxFiles
+    /\ files[src].how # "internal"
     /\ Len(sel) >= 1
     /\ \A i \in 1..Len(sel) : sel[i] \in 1..Len(files[src].ev)
     /\ how \in {"export", "child", "grandchild"} => Increasing(sel)
